@@ -153,9 +153,16 @@ def check_lookups(job, conv, model, kind_type, cur, base, dates, tag, today):
                 ea, eb = entry(a), entry(b)
                 exp = None if ea is None or eb is None else \
                     ("quot", O.F(eb.rate) / O.F(ea.rate))
+            # a derived rate below 0.000001 cannot be represented: rejected
+            # like any too small amount (C09)
+            too_small = isinstance(exp, tuple) and exp[1] < Fraction(1, 10 ** 6)
             try:
                 r = conv.get_rate(a, b, d)
             except ValueError as e:
+                if too_small:
+                    job.case("get_rate/derived-rate-too-small", (tag, a.symbol,
+                             b.symbol, str(d)), True)
+                    continue
                 if a is b:
                     job.case("get_rate/same-currency", (a.symbol,), False,
                              repr(e), "a rate of one",
@@ -163,6 +170,10 @@ def check_lookups(job, conv, model, kind_type, cur, base, dates, tag, today):
                 else:
                     job.case("get_rate/value", (tag, a.symbol, b.symbol, str(d)),
                              False, repr(e), repr(exp))
+                continue
+            if too_small:
+                job.case("get_rate/derived-rate-too-small", (tag, a.symbol,
+                         b.symbol, str(d)), False, repr(r), "ValueError")
                 continue
             if a is b:
                 job.case("get_rate/same-currency", (a.symbol,),
